@@ -63,6 +63,34 @@ STATIC = ['a8w8', 'a8sw8', 'a16w8', 'a8w4', 'a16w4']
 FLOATC = ['drq8', 'drq8t', 'drq4', 'wo8', 'wo8s', 'wo4', 'fp16']
 
 
+def edit_model(entered):
+  """The recipe a sequence of ACCEPTED rule entries denotes, per the documented
+  edit model and independently of RecipeManager: scopes (regexes) in order of
+  first insertion; a '*' entry replaces the scope's rules; an entry for an
+  operation already listed under the regex replaces it in place; otherwise
+  it is appended.  entered: [{'regex','operation','algorithm_key','op_config'}]."""
+  scopes = {}
+  for r in entered:
+    rg, opn = r['regex'], r['operation']
+    if opn == '*' or rg not in scopes:
+      scopes[rg] = [r]
+    else:
+      idx = [i for i, q in enumerate(scopes[rg]) if q['operation'] == opn]
+      if idx:
+        scopes[rg][idx[0]] = r
+      else:
+        scopes[rg].append(r)
+  return [r for rg in scopes for r in scopes[rg]]
+
+
+def entered_rules(accepted):
+  """[(regex, operation, algorithm, config name)] -> rule dicts (as exported)"""
+  ncfg = named_configs()
+  return [{'regex': rg, 'operation': opn, 'algorithm_key': alg,
+           'op_config': (ncfg[cn][1].to_dict() if ncfg[cn][1] is not None else None)}
+          for (rg, opn, alg, cn) in accepted]
+
+
 def needs_calibration(recipe_list):
   """Independent of RecipeManager.need_calibration: a recipe needs calibration
   iff some rule (not no_quantize) computes in INTEGER with an activation config."""
@@ -142,6 +170,12 @@ def gen_rules(rng, model_bytes, family=None):
     opsel = rng.choice(['*'] * 3 + present + ['INPUT', 'OUTPUT'])
     cname = rng.choice(pool + (['nq'] if i else []))
     rules.append((regex, opsel, ncfg[cname][0], cname))
+  if len(rules) >= 2 and rng.random() < 0.2:
+    # RE-SPECIFY an earlier entry (same regex and operation, another config): the
+    # earlier rule is replaced in place, every later rule of the scope must survive
+    rg0, op0, _, _ = rng.choice(rules[:-1])
+    cname = rng.choice(pool)
+    rules.append((rg0, op0, ncfg[cname][0], cname))
   return rules, family
 
 
